@@ -37,8 +37,9 @@ class _Rec:
 class Machine:
     NVARS = 6
 
-    def __init__(self, rng: random.Random, digest_size: int = 8):
+    def __init__(self, rng: random.Random, digest_size: int = 8, profile: str = "registry"):
         self.rng = rng
+        self.profile = profile
         self.digest_size = digest_size
         self.vars: dict[int, ASTNode] = {}
         self.tok_by_id: dict[int, int] = {}
@@ -180,7 +181,7 @@ class Machine:
         self.vars[v] = n
         t = self.tok(n)
         del n, kids
-        self._push(op, [A("ok"), t, None], f"v{v} = {d}(...) -> #{t}")
+        return (op, [A("ok"), t, None], f"v{v} = {d}(...) -> #{t}")
 
     def op_duplicate(self):
         live = self.live_objects()
@@ -198,7 +199,7 @@ class Machine:
         self.vars[v] = n
         t = self.tok(n)
         del n, x, live
-        self._push(op, [A("ok"), t, None], f"v{v} = #{tx}.duplicate() -> #{t}")
+        return (op, [A("ok"), t, None], f"v{v} = #{tx}.duplicate() -> #{t}")
 
     def _dup_oracle(self, x, n):
         if self.frame_fail:
@@ -284,7 +285,7 @@ class Machine:
         self.vars[v] = n
         t = self.tok(n)
         del n, x, live, kw
-        self._push(op, [A("ok"), t, None], f"v{v} = dataclasses.replace(#{tx}, …) -> #{t}")
+        return (op, [A("ok"), t, None], f"v{v} = dataclasses.replace(#{tx}, …) -> #{t}")
 
     def _replace_oracle(self, x, n, kw, is_method, was_reg):
         if self.frame_fail:
@@ -341,7 +342,7 @@ class Machine:
             del before, after
             op = [A("replace"), v, tx, True, [A("kids")] + kids, self._fresh_sexp()]
             del x, live, kw
-            self._push(op, [A("raise")], f"#{tx}.replace(…) raises")
+            return (op, [A("raise")], f"#{tx}.replace(…) raises")
             return
         del before
         self._replace_oracle(x, n, kw, True, was_reg)
@@ -349,7 +350,7 @@ class Machine:
         self.vars[v] = n
         t = self.tok(n)
         del n, x, live, kw
-        self._push(op, [A("ok"), t, None], f"v{v} = #{tx}.replace(…) -> #{t}")
+        return (op, [A("ok"), t, None], f"v{v} = #{tx}.replace(…) -> #{t}")
 
     def op_detach(self, only_self: bool):
         live = self.live_objects()
@@ -360,11 +361,11 @@ class Machine:
         if only_self:
             res = x.detach_self()
             del x, live
-            self._push([A("detachself"), tx], [A("ok"), None, bool(res)], f"#{tx}.detach_self() -> {res}")
+            return ([A("detachself"), tx], [A("ok"), None, bool(res)], f"#{tx}.detach_self() -> {res}")
         else:
             x.detach()
             del x, live
-            self._push([A("detach"), tx], [A("ok"), None, None], f"#{tx}.detach()")
+            return ([A("detach"), tx], [A("ok"), None, None], f"#{tx}.detach()")
 
     def op_serialize(self):
         live = self.live_objects()
@@ -384,7 +385,7 @@ class Machine:
         self.vars[v] = n
         t = self.tok(n)
         del n
-        self._push(op, [A("ok"), t, None], f"v{v} = as_obj(as_dict(#{tx})) -> #{t}")
+        return (op, [A("ok"), t, None], f"v{v} = as_obj(as_dict(#{tx})) -> #{t}")
 
     def op_alias(self):
         live = self.live_objects()
@@ -395,37 +396,43 @@ class Machine:
         t = self.tok(x)
         self.vars[v] = x
         del x, live
-        self._push([A("alias"), v, t], [A("ok"), t, None], f"v{v} = #{t}")
+        return ([A("alias"), v, t], [A("ok"), t, None], f"v{v} = #{t}")
 
     def op_drop(self):
         if not self.vars:
             return self.op_construct()
         v = self.rng.choice(sorted(self.vars))
         del self.vars[v]
-        self._push([A("drop"), v], [A("ok"), None, None], f"del v{v}")
+        return ([A("drop"), v], [A("ok"), None, None], f"del v{v}")
 
     def random_op(self):
         k = self.rng.random()
+        if self.profile == "copy":
+            # C14: mostly duplicate / replace / dataclasses.replace over a few constructed trees
+            k = {True: k * 0.28, False: 0.28 + (k - 0.25) / 0.75 * 0.30 if k < 0.8 else 0.58 + (k - 0.8) / 0.2 * 0.42}[k < 0.25]
         if k < 0.28:
-            self.op_construct()
+            r = self.op_construct()
         elif k < 0.38:
-            self.op_duplicate()
+            r = self.op_duplicate()
         elif k < 0.47:
-            self.op_dcreplace()
+            r = self.op_dcreplace()
         elif k < 0.58:
-            self.op_replace()
+            r = self.op_replace()
         elif k < 0.65:
-            self.op_detach(False)
+            r = self.op_detach(False)
         elif k < 0.75:
-            self.op_detach(True)
+            r = self.op_detach(True)
         elif k < 0.8:
-            self.op_serialize()
+            r = self.op_serialize()
         elif k < 0.87:
-            self.op_asobj()
+            r = self.op_asobj()
         elif k < 0.92:
-            self.op_alias()
+            r = self.op_alias()
         else:
-            self.op_drop()
+            r = self.op_drop()
+        # the op methods have returned: none of their locals holds a node any more
+        if r is not None:
+            self._push(*r)
 
     def request(self) -> str:
         return dumps([A("registry-history")] + self.ops)
